@@ -171,6 +171,21 @@ func c05Gen(rng *verifsim.RNG, idx int, tier string) *Plan {
 		for i := 0; i < nrs; i++ {
 			q.Actions = append(q.Actions, rsAction(int64(rng.Dur(0, time.Duration(q.Horizon)))+jitter(rng), "::"))
 		}
+		if q.Class == "advertiser-solicited" && s.MinInterval == nil && rng.Bool(0.6) {
+			// min = max: the unsolicited loop asks for an RA every mx seconds to
+			// the nanosecond, counted from the end of the dial attempt (whose
+			// duration is this simulator's own parameter). A burst of more
+			// solicitations than the request queue holds, landing in the very
+			// instant of such a tick, must not cost the tick.
+			q.Class += "+burst-at-tick"
+			t0 := int64(1009*q.Nodes[0].Ifaces[0].Index + 13)
+			for i, k := 0, rng.Range(1, 3); i < k; i++ {
+				tick := t0 + int64(rng.Range(2, int(q.Horizon/nsSec)/mx-1))*int64(mx)*nsSec
+				a := rsAction(tick, hostAddr(rng.Intn(3)))
+				a.N = rng.Range(17, 40)
+				q.Actions = append(q.Actions, a)
+			}
+		}
 		// "recur forever" includes across a re-initialisation
 		if maybeReinit(rng, q, "eth0", nsSec, q.Horizon*3/4, 0.3) && rng.Bool(0.4) {
 			// ... with a slow transmission in flight at the link event, which then
@@ -246,6 +261,20 @@ func c05Oracle(info *runInfo, res *verifsim.Result) {
 		for k := 0; k+1 < len(s.req); k++ {
 			wt := s.req[k+1] - s.req[k]
 			c05Judge(res, mn, mx, wt, fmt.Sprintf("wait #%d", k), k, !stalled)
+			if stalled && k+1 < len(steps[j].L) {
+				// a consumer that was busy when the request came due gets it the
+				// moment it is ready again (the request waits, it is not lost):
+				// never later than both the longest wait and its own readiness
+				ready := s.req[k] + steps[j].L[k+1]
+				limit := s.req[k] + mx + nsSec
+				if ready > limit {
+					limit = ready
+				}
+				if s.req[k+1] > limit {
+					res.Violate("C05.recur", "request-lost", "min=%s max=%s: the consumer was ready again %s after request #%d, but request #%d only came %s after it (a request that came due while the consumer was busy was dropped instead of waiting)",
+						time.Duration(mn), time.Duration(mx), time.Duration(steps[j].L[k+1]), k, k+1, time.Duration(wt))
+				}
+			}
 		}
 		if steps[j].S == "regen" {
 			if len(s.req2) < 5 {
